@@ -30,3 +30,85 @@ pub mod acc {
 
 #[inline(always)]
 pub fn bit(word: u16, mask: u16) -> bool { word & mask != 0 }
+
+/// JVMS 4.2 / 4.3 written over bytes (ASCII), independent of the code under test.
+pub mod grammar {
+	/// 4.2.2 unqualified name: non-empty, none of `. ; [ /`.
+	pub fn unqualified(s: &[u8]) -> bool {
+		if s.is_empty() { return false; }
+		let mut i = 0;
+		while i < s.len() {
+			if matches!(s[i], b'.' | b';' | b'[' | b'/') { return false; }
+			i += 1;
+		}
+		true
+	}
+	/// 4.2.2 method name: `<init>`, `<clinit>` or an unqualified name without `<` `>`.
+	pub fn method_name(s: &[u8]) -> bool {
+		if s == b"<init>" || s == b"<clinit>" { return true; }
+		if s.is_empty() { return false; }
+		let mut i = 0;
+		while i < s.len() {
+			if matches!(s[i], b'.' | b';' | b'[' | b'/' | b'<' | b'>') { return false; }
+			i += 1;
+		}
+		true
+	}
+	/// 4.2.1 binary class name in internal form: unqualified names separated by `/`.
+	pub fn obj_class_name(s: &[u8]) -> bool {
+		// every `/`-separated part non-empty and free of `. ; [`
+		let mut part_len = 0usize;
+		let mut i = 0;
+		while i < s.len() {
+			let c = s[i];
+			if c == b'/' {
+				if part_len == 0 { return false; }
+				part_len = 0;
+			} else {
+				if matches!(c, b'.' | b';' | b'[') { return false; }
+				part_len += 1;
+			}
+			i += 1;
+		}
+		part_len != 0
+	}
+
+	#[derive(Clone, Copy, PartialEq, Eq, Debug)]
+	pub enum Base { Prim(u8), Obj(usize, usize) }
+	#[derive(Clone, Copy, PartialEq, Eq, Debug)]
+	pub struct FieldType { pub dims: usize, pub base: Base }
+
+	/// 4.3.2 FieldType starting at `i`: Some((type, index after it)).
+	pub fn field_type(s: &[u8], mut i: usize) -> Option<(FieldType, usize)> {
+		let mut dims = 0usize;
+		while i < s.len() && s[i] == b'[' { dims += 1; i += 1; }
+		if dims > 255 { return None; }
+		if i >= s.len() { return None; }
+		match s[i] {
+			b'B' | b'C' | b'D' | b'F' | b'I' | b'J' | b'S' | b'Z' => Some((FieldType { dims, base: Base::Prim(s[i]) }, i + 1)),
+			b'L' => {
+				let start = i + 1;
+				let mut j = start;
+				while j < s.len() && s[j] != b';' { j += 1; }
+				if j >= s.len() { return None; }
+				if !obj_class_name(&s[start..j]) { return None; }
+				Some((FieldType { dims, base: Base::Obj(start, j) }, j + 1))
+			},
+			_ => None,
+		}
+	}
+	/// FieldDescriptor: exactly one FieldType.
+	pub fn field_descriptor(s: &[u8]) -> Option<FieldType> {
+		match field_type(s, 0) { Some((t, end)) if end == s.len() => Some(t), _ => None }
+	}
+	/// ReturnDescriptor: `V` or a FieldType. Outer None = reject, inner None = void.
+	pub fn return_descriptor(s: &[u8]) -> Option<Option<FieldType>> {
+		if s == b"V" { return Some(None); }
+		field_descriptor(s).map(Some)
+	}
+	/// Array class name (4.2.1): a field descriptor with at least one dimension.
+	pub fn arr_class_name(s: &[u8]) -> bool {
+		matches!(field_descriptor(s), Some(t) if t.dims >= 1)
+	}
+	pub fn class_name(s: &[u8]) -> bool { arr_class_name(s) || obj_class_name(s) }
+}
